@@ -95,9 +95,12 @@ WriteX(v, we, ws, sid) ==
    whenever the write call returns Ok, the destination holds exactly the bytes the same call puts into a Vec (total of them);
    a destination that fails before the message is complete makes the call return an error (never Ok with a partial
    message; what has arrived by then is not claimed - the code documents partial writes on io errors); a destination
-   whose limit is not reached is not an excuse for an error.                                                       *)
-DestOk(total, limit, ok, arrived, equal) ==
-  IF limit < total THEN ~ok ELSE (ok /\ equal /\ arrived = total)
+   that never reports an error is not an excuse for one.  Narrower reading: a destination that answers Interrupted may
+   make the call fail (passing Interrupted on instead of retrying is not claimed to be wrong) - but Ok still means all.  *)
+DestOk(total, limit, interrupts, ok, arrived, equal) ==
+  IF limit < total THEN ~ok
+  ELSE IF ok THEN (equal /\ arrived = total)
+  ELSE interrupts
 
 -----------------------------------------------------------------------------
 \* the theorems (C02), as predicates over one well-formed stored message m
